@@ -357,11 +357,11 @@ import oracles  # noqa: E402  (python-side support oracles; registers nothing by
 import families  # noqa: E402
 
 register("C01", streams=[Q("child", apis=["find_matches"], src=False, maxlen=5)],
-         observables=["results"], oracles=[oracles.identity_oracle],
+         observables=["results"], oracles=[oracles.identity_oracle, oracles.requery_oracle],
          rule="random JSON documents (depth<=4, shuffled keys, empty containers, falsy scalars) x child-step paths grown by walking the document (75%) or free (25%); non-trivial = at least one result and >=2 steps, or an exception; distinct by scenario hash",
          assumptions=["floats restricted to half-integers", "slice step 0 and bool indices excluded (not supported steps)"])
 register("C02", streams=[Q("rec", apis=["find_matches"], src=False, maxlen=5)],
-         observables=["results"],
+         observables=["results"], oracles=[oracles.reiter_oracle],
          rule="documents with ragged depth and empty containers x paths with >=1 recursive step mixed with all other step kinds; non-trivial as C01")
 register("C03", streams=[Q("filter", pred="custom", apis=["find_matches"], src=False, share=2), Q("filter", pred="mixed", apis=["find_matches"], src=False, share=1)],
          observables=["calls", "results_exc"],
@@ -370,21 +370,22 @@ register("C04", streams=[Q("filter", pred="has", apis=["find_matches"], src=Fals
                          Q("filter", pred="below", apis=["find_matches"], src=False, share=1)],
          observables=["fncalls", "results_exc"],
          rule="has/has_not/has_all/has_any trees (depth<=3) over relative paths incl. wildcards, recursion, parent steps, nested filters; six operators; constants of every JSON kind; conversion chains of length 0-3 that raise on part of the data; compared: results, conversion call order, exception chain")
-register("C05", streams=[Q("all", apis=ALL_APIS, src=None, share=3), Q("parent", apis=ALL_APIS, src=True, share=1)],
+register("C05", streams=[Q("all", apis=ALL_APIS, src=None, share=3, untraced=0.4), Q("parent", apis=ALL_APIS, src=True, share=1, untraced=0.4)],
          observables=["results_exc"],
          rule="all four read functions on the same (path, source) space, source = document or k-th match of another path; default in {none, constant incl. falsy and {}, callable}; must_match in {True, False}")
 register("C07", streams=[Q("all", apis=["find_matches", "find"], src=None, nexts="partial", untraced=0.5, share=4),
                          Q("filter", pred="below", apis=["find_matches", "find"], src=None, nexts="partial", untraced=0.5, share=1)],
-         observables=["calls", "results_exc", "segments"], oracles=[oracles.interleave_oracle, oracles.thread_oracle],
+         observables=["calls", "results_exc", "segments"], oracles=[oracles.interleave_oracle, oracles.thread_oracle, oracles.reiter_oracle],
          rule="iterators advanced k times (k below, at, beyond the number of results; extra next() calls after exhaustion); per-call segments of results and user-predicate calls compared with the machine model; interleavings of 2-5 iterators sharing path objects; real threads as support")
 register("C11", streams=[Q("nopar", apis=["find_matches"], src=None)],
          observables=["full_results"], oracles=[oracles.match_truth_oracle],
          rule="parent-free paths; every Match observable (path_as_str, data_name, data, path_match_list names, parent) compared; round trip through Match.path, duplicate-freedom and == on random pairs as python-side oracles")
-register("C12", streams=[Q("all", apis=ALL_APIS, src=True)],
+register("C12", streams=[Q("all", apis=ALL_APIS, src=True, untraced=0.4, share=3), Q("parent", apis=ALL_APIS, src=True, untraced=0.4, share=1)],
          observables=["full_results"], oracles=[oracles.concat_oracle],
          rule="pairs (p, q): every API function run on q from the k-th match of p, compared with the specification evaluated from the same match; p+q concatenation checked on the python side")
-register("C13", streams=[Q("parent", apis=["find_matches"], src=None, share=2), Q("parent", apis=ALL_APIS, src=True, share=1)],
+register("C13", streams=[Q("parent", apis=["find_matches"], src=None, share=2), Q("parent", apis=ALL_APIS, src=True, share=1, untraced=0.4)],
          observables=["full_results"],
+         extra=[families.MutateFamily("mset", 300, 15000, "set_match from a Match whose target path climbs above the source (outcome, returned location, object graph)")],
          rule="paths with parent steps in any position, interleaved with descents, filters and recursion, from a document or a Match; locations incl. the '<-name' trail compared")
 register("C17", streams=[Q("all", apis=["find_matches", "find", "get_match"], src=None)],
          observables=["results_exc", "leaf_events", "stamps", "tie:trace"], oracles=[oracles.untraced_oracle],
